@@ -23,7 +23,8 @@ def make_byte_limit():
     def factory(excluded=frozenset()):
         def harness(c):
             size = fresh_int(c, "file_size", 0)
-            limit = fresh_int(c, "byte_limit", 0)
+            limit = fresh_int(c, "byte_limit", 0)          # the limit in force for THIS file (nested config / inline)
+            root_limit = fresh_int(c, "root_byte_limit", 0)  # the limit of the root config (may differ)
             opened = []
 
             class ChildCfg:
@@ -36,6 +37,9 @@ def make_byte_limit():
             class RootCfg:
                 def make_child_from_path(self, fname):
                     return ChildCfg()
+
+                def get(self, key, section="core", default=None):
+                    return {"encoding": "utf-8", "large_file_skip_byte_limit": root_limit}.get(key, default)
 
             class OsProxy:
                 class path:
@@ -63,22 +67,33 @@ def make_byte_limit():
 
 
 def replay_byte_limit(cex):
+    """Real files: the root .sqlfluff sets root_byte_limit, a nested sub/.sqlfluff sets byte_limit for sub/f.sql."""
     import os
     import tempfile
-    size, limit = int(cex.get("file_size", 0)), int(cex.get("byte_limit", 0))
+    size, limit, root_limit = int(cex.get("file_size", 0)), int(cex.get("byte_limit", 0)), int(cex.get("root_byte_limit", 0))
     size = min(size, 200000)
-    with tempfile.TemporaryDirectory() as d:
-        p = os.path.join(d, "f.sql")
-        body = ("select 1\n" * (size // 9 + 1))[:size]
-        open(p, "w").write(body)
-        cfg = FluffConfig(overrides={"dialect": "ansi", "large_file_skip_byte_limit": limit})
+    d = os.path.realpath(tempfile.mkdtemp(prefix="c34_"))
+    cwd = os.getcwd()
+    try:
+        os.makedirs(os.path.join(d, "sub"))
+        open(os.path.join(d, ".sqlfluff"), "w").write(f"[sqlfluff]\ndialect = ansi\nlarge_file_skip_byte_limit = {root_limit}\n")
+        open(os.path.join(d, "sub", ".sqlfluff"), "w").write(f"[sqlfluff]\nlarge_file_skip_byte_limit = {limit}\n")
+        p = os.path.join(d, "sub", "f.sql")
+        open(p, "w").write(("select 1\n" * (size // 9 + 1))[:size])
+        os.chdir(d)
+        cfg = FluffConfig.from_root()
         try:
-            Linter.load_raw_file_and_config(p, cfg)
+            Linter.load_raw_file_and_config(os.path.join("sub", "f.sql"), cfg)
             skipped = False
         except SQLFluffSkipFile:
             skipped = True
         exp = limit != 0 and size > limit
-        return None if skipped == exp else f"file of {size} bytes with large_file_skip_byte_limit={limit}: skipped={skipped}, expected {exp}"
+        return None if skipped == exp else (f"sub/f.sql of {size} bytes; root .sqlfluff limit {root_limit}, sub/.sqlfluff limit {limit}: "
+                                            f"skipped={skipped}, expected {exp} (the nearer config file governs)")
+    finally:
+        os.chdir(cwd)
+        import shutil
+        shutil.rmtree(d, ignore_errors=True)
 
 
 def make_char_limit():
